@@ -475,9 +475,13 @@ impl<'de> de::Deserialize<'de> for StringHashSet {
             where
                 V: de::MapAccess<'de>,
             {
+                // every member maps to the empty struct `()`
+                #[derive(Deserialize)]
+                struct Empty {}
+
                 let mut values = StringHashSet::new();
 
-                while let Some(key) = visitor.next_key()? {
+                while let Some((key, _)) = visitor.next_entry::<String, Empty>()? {
                     values.insert(key);
                 }
 
